@@ -52,10 +52,23 @@ def handleFootprint (j : Json) : Json :=
         | .ok (.ranges rows) => okJson (Json.mkObj [("ranges", rowsJson rows)])
         | .ok (.range1 lo hi) => okJson (Json.mkObj [("range1", Json.arr #[ratToJson lo, ratToJson hi])])
 
+def handleSampling (j : Json) : Json :=
+  match (do
+    let bb ← (← parseBox (← jField j "bb"))
+    let n ← jNat (← jField j "n")
+    let crpix ← jList jRat (← jField j "crpix")
+    pure (bb, n, crpix)) with
+  | none => badRequest "C18 sampling"
+  | some (bb, n, crpix) =>
+    match samplingAxes n bb crpix with
+    | .error e => errJson e
+    | .ok axes => okJson (Json.mkObj [("axes", rowsJson axes)])
+
 def handle (j : Json) : Json :=
   match jStr (jFieldD j "op" Json.null) with
   | some "grid" => handleGrid j
   | some "footprint" => handleFootprint j
+  | some "sampling" => handleSampling j
   | _ => badRequest "C18 op"
 
 end Gwcs.Drv.C18
